@@ -282,6 +282,27 @@ def run(ctx):
                    site="%s@after-steal-sweep" % fn.name)
     ctx.floor("C07.R3e", n3e, 1, "steal sweeps that keep a popped task across callback invocations")
 
+    # ---------------------------------------------------------------- R3g a task reported as accepted was handed to a queue
+    n3g = 0
+    for fn in fb.find(pred=lambda f: f.record == POOL and f.name == "enqueue_task" and f.has_cfg()):
+        n3g += 1
+        ig = IG(fn, inline=nin)
+        live = ig.live_nodes()
+        QP = re.compile(r"^babylon::ConcurrentBoundedQueue<.*>::(try_)?push(_n)?$")
+        qs = [n for n in ig.ev_nodes() if n.id in live and n.ev["e"] == "call" and QP.match(n.ev.get("callee", "") or "")]
+        sure = [n for n in qs if n.ev["name"] in ("push", "push_n")]
+        maybe = [n for n in qs if n.ev["name"].startswith("try_")]
+        won = L.result_edges(ig, set(n.id for n in maybe), True, live) if maybe else []
+        acc = [n for n in ig.ev_nodes() if n.id in live and n.ev["e"] == "ret" and n.frame.id == 0 and const_val(ig.resolve(n.ev.get("v"), n.frame)) == 0]
+        r0 = ig.reach([ig.entry], removed=sure, removed_edges=won)
+        bad = [r_ for r_ in acc if r_.id in r0]
+        ctx.ob("C07.R3g", L.short(fn), bool(qs) and bool(acc) and not bad, (bad[0].where if bad else fn.loc),
+               "enqueue_task reports success (returns 0) on a path where the task was not handed to a queue: a blocking push, or a "
+               "try_push whose result was seen true - a try_push that fails silently drops a task the caller was told is accepted "
+               "(size() < capacity does not mean a slot is free: a pop claims its ticket before it releases the slot)",
+               site="enqueue_task@accepted-means-queued")
+    ctx.floor("C07.R3g", n3g, 1, "ThreadPoolExecutor::enqueue_task")
+
     # ---------------------------------------------------------------- R4 execute / submit
     n4 = 0
     for fn in fb.find(pred=lambda f: f.record == "babylon::Executor" and f.name == "execute" and f.has_cfg() and not f.d.get("coroutine")):
